@@ -183,7 +183,17 @@ def body_periodic(S, loop, part):
     clock = ClockBase(None, loop)
     interval = S.real("interval", 0.05, 2)
     n_max = part["ticks"]
-    lates = [S.real("late%d" % k, 0, 0.005) for k in range(n_max + 2)]
+    mode = part["mode"]
+    if mode == "stall":
+        # the loop is blocked for more than one interval before one tick: the missed ticks are made up, nothing drifts
+        stall_k = S.int("stalled_tick", 1, n_max - 2)
+        stall = S.real("stall_s", 0, 4)
+        S.assume(stall > interval)
+        S.assume(stall < 2 * interval)
+        lates = [0.0] * (n_max + 2)
+        lates[stall_k - 1] = stall
+    else:
+        lates = [S.real("late%d" % k, 0, 0.005) for k in range(n_max + 2)]
     S.assume(interval > 0.01)
     calls = []
     k_seen = [0]
@@ -204,7 +214,6 @@ def body_periodic(S, loop, part):
     task = clock.schedule_interval(tick, interval)
     task_box[0] = task
     cancel_at = S.real("cancel_at", 0, 2 * n_max)
-    mode = part["mode"]
     if mode == "cancel":
         loop.call_at(t0 + cancel_at, lambda: clock.unschedule(task))
     horizon = t0 + interval * n_max + 0.5 * interval
@@ -219,7 +228,7 @@ def body_periodic(S, loop, part):
     # k-th tick: scheduled for t0 + k*interval exactly, executed within its lateness, never after cancel
     for k, at in enumerate(calls, start=1):
         ideal = t0 + k * interval
-        if at < ideal or at > ideal + 0.005:
+        if at < ideal or (at > ideal + 0.005 and mode != "stall"):
             raise Violation("periodic-no-drift", "PeriodicTask._run", "tick %d ran at +%s, ideal +%s (interval %s): lateness accumulated" % (k, at - t0, ideal - t0, interval))
         if mode == "cancel" and at > t0 + cancel_at + 0.005:
             raise Violation("no-tick-after-cancel", "PeriodicTask.cancel", "tick %d at +%s after cancel at +%s" % (k, at - t0, cancel_at))
@@ -405,7 +414,7 @@ def scenarios(tier):
         parts += [dict(kinds=["add", "add"], cb_action=a, names=[0, 1]) for a in (4, 5, 6)]
     else:
         parts = [dict(kinds=s) for s in seqs]
-    per = [dict(mode="run", ticks=4 if tier == "quick" else 8), dict(mode="cancel", ticks=3 if tier == "quick" else 6)]
+    per = [dict(mode="run", ticks=4 if tier == "quick" else 8), dict(mode="cancel", ticks=3 if tier == "quick" else 6), dict(mode="stall", ticks=5 if tier == "quick" else 8)]
     pb = 70 if tier == "quick" else 200
     if tier == "quick":
         tparts = [dict(ops=["start", a, b], n=3) for a in ("wait", "pause", "add") for b in ("stop", "mode_stop", "wait", "start")]
